@@ -33,14 +33,14 @@ def make_name(namer, level_idx, idx):
         return f'{pre}{idx:02d}'
     if s == 'shared':
         # the same names occur at every level (e.g. a subclass and its only cluster share a name)
-        return f'n{(idx * 37 + namer["salt"]) % 97:02d}'
+        return f'n{(idx * 37 + namer["salt"]) % 9973:04d}'
     if s == 'scrambled':
-        return f'{pre}{(idx * 37 + namer["salt"]) % 97:02d}'
+        return f'{pre}{(idx * 37 + namer["salt"]) % 9973:04d}'
     if s == 'numeric':
         # numeric looking; unique per level; '10' < '2' alphabetically
-        return str((idx * 37 + namer['salt']) % 97 + 100 * level_idx)
+        return str((idx * 37 + namer['salt']) % 9973 + 10000 * level_idx)
     if s == 'odd':
-        return f'{pre}{namer["odd"]}{(idx * 37 + namer["salt"]) % 97}'
+        return f'{pre}{namer["odd"]}{(idx * 37 + namer["salt"]) % 9973}'
     raise ValueError(s)
 
 
@@ -264,7 +264,7 @@ def map_configs(draw, tree_data, n_cells, factor=None, allow_flatten=True, allow
         'normalization': 'raw',
         'rng_seed': draw(st.integers(0, 2**31 - 1)),
         'tmp_dir': draw(st.booleans()),
-        'max_gb': draw(st.sampled_from([1.0, 1.0, 1e-9, 0.001])),
+        'max_gb': draw(st.sampled_from([1.0, 1.0, 1e-9, 0.001, 1e-6, 4e-6, 2e-5])),
         'cloud_safe': draw(st.booleans()),
     }
 
